@@ -4,26 +4,58 @@ import json, os, subprocess, tempfile, itertools
 PROPS = ["C06/Props.v"]
 META = dict(
     text="Rocq theorems (unbounded, structural induction, no axiom) over an executable model of obichunk.IUniqueSequence (partition by an "
-         "ARBITRARY hash, grouping by sequence then by each category with the singleton short-cut, BioSequence.Merge as a left fold) and of "
-         "obidemerge: the records merged together are exactly the records of one key; one output record per distinct key; count = sum; every "
-         "merged_<k> map = per-value summed weight (already merged inputs contribute their map; totals add up to the count); total count "
-         "conserved (--no-singleton drops exactly the whole classes of total 1); an annotation survives iff unanimous; the projected output set is "
-         "invariant under every input permutation, hash function and chunk count; obiuniq -m k | obidemerge -d k | obiuniq -m k = obiuniq -m k. "
-         "On every run the REAL IUniqueSequence is drained (memory and disk, 1/2/7/100 chunks, 1..8 workers, -c/-m/NA/--no-singleton, with and "
-         "without qualities, already merged inputs in the three Go map types) on random multisets and 5-6 arrival orders of each, judged by a "
-         "direct Python accounting oracle and compared with the model evaluated by vm_compute; the real demerge worker is compared with the "
-         "model too; the built obiuniq / obidemerge binaries are checked against the oracle and for the demerge round trip.",
-    note="Trusted: Coq kernel + vm_compute, harness, generators/renderers (strings are interned to N codes by the renderer). "
-         "An attribute value is modelled by its printed form (fmt.Sprint): records mixing Go types for one printed value are not modelled "
-         "(known finding mixed-type-category-dropped, oracle only). Weighted statistics (-m k:w), qualities and the on-disk round trip of "
-         "chunks are exercised by harness + oracle only (the latter is C02's statement). The hash is a Section variable. Go channels / "
-         "scheduler are not modelled: a schedule only changes the arrival order, over which the theorems quantify; sort.Sort's "
-         "instability likewise. Record ids (that of the first member) are not part of the claim. C06_demerge_inverse is stated for -c-less "
-         "dereplication on (sequence, merged map, count = total of the map), other annotations not claimed.")
+         "ARBITRARY hash, grouping by sequence then by each category with the singleton short-cut, BioSequence.Merge as a left fold over TYPED "
+         "attribute values, statistics descriptors key / key:weight) and of obidemerge: the records merged together are exactly the records of "
+         "one key; every output record is the merge of one whole class (count = sum of the counts; every merged_<k> map = per-value summed "
+         "contribution: the WEIGHT of a raw record, the own map of an already merged one); total count conserved (--no-singleton drops exactly "
+         "the whole classes of total 1); total weight of every slot conserved, per class and over the data set (these for counts >= 1, "
+         "hypothesis pos_counts; every output count is >= 1 unconditionally); on a data set where the "
+         "printed form of a category value determines its typed value (hypothesis `typed`, stated in each theorem that needs it): one output "
+         "record per distinct key, output keys = input keys, an annotation survives iff unanimous as a typed value, the projected output set "
+         "is invariant under every input permutation, hash function and chunk count; without that hypothesis the key statements are REFUTED "
+         "in the model (C06_one_per_key_refuted, C06_keys_exact_refuted = known finding mixed-type-category-dropped); the on-disk mode yields "
+         "the same multiset of records as the in-memory mode GIVEN the write/read round trip of the chunk files on the modelled fields "
+         "(C06_disk_equals_memory); obiuniq -m k | obidemerge -d k | obiuniq -m k = obiuniq -m k. "
+         "On every run the REAL IUniqueSequence is drained (memory and disk, 1/2/7/100/1000 chunks, 1..8 workers, several -c with several "
+         "-m key and key:weight, NA values colliding with values, --no-singleton, qualities, already merged inputs in the three Go map types, "
+         "string / integer / float / boolean / list / map / null values, mixed types, upper-case sequences, records without nucleotides, "
+         "counts 0 and negative) on random multisets and 5-6 arrival orders of each, judged by a direct Python accounting oracle and compared "
+         "with the model evaluated by vm_compute (weighted, mixed-type and refused-value cases included; on-disk cases through the model's "
+         "on-disk path); for every on-disk case each chunk file, as re-read by the implementation (verif tap), is compared with what was sent "
+         "to it on the modelled projection (= the hypothesis of C06_disk_equals_memory, checked per case); the real demerge worker is compared "
+         "with the model too; the built obiuniq / obidemerge binaries are checked against the oracle and for the demerge round trip; the "
+         "on-disk mode is stressed in 24 concurrent processes and, deterministically, with every chunk file completed 5-20 ms late.",
+    note="Trusted: Coq kernel + vm_compute, harness, generators/renderers (strings are interned to N codes by the renderer; the typed view of a "
+         "value — Go type tag, fmt.Sprint form, canonical JSON, StatsPlusOne key, InterfaceToInt — is computed by the harness in Go next to "
+         "the code, the Python oracle computes its own). Go int (OBI-format headers, harness default) and float64 (what the JSON header reader leaves every number; harness "
+         "flag nf; every number after a chunk file) are distinct tags: data sets mixing both for one number are modelled and driven in memory "
+         "(the attribute is dropped: same known finding; through the commands: corpus witness cli_mixed_headers, where the on-disk mode keeps "
+         "it); on disk the model is fed the records as re-read, and the round trip hypothesis is checked literally when every number is "
+         "already a float64, up to the int -> float64 retagging otherwise. Counts < 1 are outside the property (quantifier `counts >= 1`): "
+         "the model carries SetCount (every intermediate total < 1 becomes 1), the accounting theorems state pos_counts, "
+         "C06_count_is_sum_nonpositive_refuted shows the order dependence; such cases are driven and compared with the model, the direct "
+         "oracle judges only their classes. Not modelled: the rewriting "
+         "of a weight attribute by GetIntAttribute (float64 -> int), so the survival of an attribute used as a weight is not claimed and an attribute used both as a weight and as a category "
+         "is not driven (a float 3.25 would be rewritten as 3 and shown as the key); "
+         "qualities (dropped by Merge); records without nucleotides on disk (refused by the chunk reader by design: expected to stop). "
+         "C06_disk_equals_memory assumes the round trip (C02's statement) and is re-checked per on-disk case; integers >= 1e6 are not "
+         "generated in attributes (fmt.Sprint of the re-read float64 differs: 1e+06). The hash is a Section variable. Go channels / scheduler "
+         "are not modelled: a schedule only changes the arrival order, over which the theorems quantify; sort.Sort's instability likewise. "
+         "Record ids (that of the first member) are not part of the claim. C06_demerge_inverse is stated for -c-less, weight-less "
+         "dereplication on (sequence, merged map, count = total of the map). disk_stress detection of 'chunk files read before they are "
+         "complete', measured in round 2 on the tree with the wait removed (25 large cases, machine load > 100): 0/25 in one process without "
+         "delay, 11/600 in 24 concurrent processes, 22/25 with chunk files completed 5 ms late and 24/25 with 20 ms (one process; replay of "
+         "one such case: 20/20); 0 on the unchanged tree in all four settings.")
 TRUSTED = ["CRC32 is NOT trusted: the hash is a Section variable h : list N -> nat, theorems hold for every h and every chunk count",
            "classifier code tables + sort.Sort (unstable) + split are modelled as: classes in first-appearance order, members in arrival order; "
            "C06_order_hash_chunks_independent shows the projection does not depend on the order inside or between classes",
-           "the range over the Go map statsOn is modelled as independent slots (a map over the list of requested keys)"]
+           "the range over the Go map statsOn is modelled as independent slots (a map over the list of requested slots)",
+           "Section hypothesis C02_fasta_fastq_roundtrip_projected of C06_disk_equals_memory: writing a record to a chunk file (FASTA or FASTQ "
+           "with JSON header) and reading it back returns the same (sequence, Count(), typed annotations, merged maps) — C02_fasta_roundtrip / "
+           "C02_fastq_roundtrip projected on the modelled fields; re-checked on every on-disk case of every run through obichunk.VerifChunkRead",
+           "Section hypothesis directory_order_is_a_rearrangement: the chunk files are processed in some order (filepath.WalkDir), each once",
+           "typed view of a value (c06Typed in the harness): fmt.Sprint, encoding/json, and a transcription of the type switches of "
+           "StatsPlusOne and obiutils.InterfaceToInt; a divergence from the code shows as a disagreement with the independent Python oracle"]
 
 IMPORTS = ("From Coq Require Import List NArith ZArith Bool. Import ListNotations.\n"
            "From OBI.C06 Require Import Model.\nOpen Scope N_scope.\n")
@@ -33,19 +65,60 @@ SEQ_POOL_LEN = [1, 2, 3, 4, 5, 8, 12]
 
 # ----------------------------------------------------------------------------------------------- semantics (oracle)
 def sprint(v):
-    """fmt.Sprint of an attribute value (string / int / bool)"""
+    """fmt.Sprint of an attribute value as the Go code holds it (string / int / bool / float64 / []interface{} /
+    map[string]interface{} / nil); generated floats are short non-integral decimals, printed alike by Go and Python"""
     if isinstance(v, bool):
         return "true" if v else "false"
+    if v is None:
+        return "<nil>"
+    if isinstance(v, list):
+        return "[" + " ".join(sprint(x) for x in v) + "]"
+    if isinstance(v, dict):
+        return "map[" + " ".join("%s:%s" % (k, sprint(v[k])) for k in sorted(v)) + "]"
     return str(v)
 
 
 def render(v):
-    """the harness' typed rendering (c06Render)"""
-    if isinstance(v, bool):
-        return "true" if v else "false"
+    """the harness' rendering of an output annotation (c06Render)"""
     if isinstance(v, str):
         return json.dumps(v, ensure_ascii=False)
-    return str(v)
+    return sprint(v)
+
+
+def tid(v, nf=False):
+    """typed identity of a value: what BioSequence.Merge compares (dynamic type + value). A number is a Go int when it is
+    integral and the record was built the OBI-header way, a float64 when it was built the JSON-header way (nf) or went
+    through a chunk file"""
+    if isinstance(v, bool):
+        tag = 3
+    elif isinstance(v, int):
+        tag = 2 if nf else 1
+    elif isinstance(v, float):
+        tag = 2
+    else:
+        tag = 0 if isinstance(v, str) else 5 if v is None else 4
+    return (tag, json.dumps(v, sort_keys=True))
+
+
+def rtid(case, r, v):
+    """typed identity of the value v of record r as the dereplication of this case sees it"""
+    return tid(v, nf=bool(case.get("disk") or r.get("nf")))
+
+
+def statkey(v):
+    """the key StatsPlusOne files a value under; None = it refuses the value (log.Fatalf)"""
+    if isinstance(v, (str, bool, int)):
+        return sprint(v)
+    if isinstance(v, float) and v == int(v):
+        return str(int(v))
+    return None
+
+
+def intval(v):
+    """obiutils.InterfaceToInt"""
+    if isinstance(v, bool) or not isinstance(v, (int, float)):
+        return None
+    return int(v)
 
 
 def unrender(s):
@@ -56,6 +129,9 @@ def unrender(s):
 
 
 def rcount(r):
+    """Count(): the count attribute (ccount: explicit, possibly 0 or negative), 1 when absent"""
+    if r.get("ccount") is not None:
+        return r["ccount"]
     return r["count"] if r.get("count", 0) > 0 else 1
 
 
@@ -64,8 +140,13 @@ def val(r, k, na):
     return sprint(a[k]) if k in a else na
 
 
+def sval(r, k, na):
+    a = r.get("attrs") or {}
+    return statkey(a[k]) if k in a else na
+
+
 def key_of(r, cats, na):
-    return (r["seq"], tuple(val(r, c, na) for c in cats))
+    return (r["seq"].lower(), tuple(val(r, c, na) for c in cats))
 
 
 def contrib(r, desc, na):
@@ -76,11 +157,61 @@ def contrib(r, desc, na):
         return dict(m)
     k, _, wk = desc.partition(":")
     if wk:
-        w = (r.get("attrs") or {}).get(wk, 0)
-        w = w if isinstance(w, int) and not isinstance(w, bool) else 0
+        w = intval((r.get("attrs") or {}).get(wk))
+        w = 0 if w is None else w
     else:
         w = rcount(r)
-    return {val(r, k, na): w}
+    return {sval(r, k, na): w}
+
+
+def mixed_numbers(case):
+    """one integral number stored as a Go int in one record and as a float64 in another (same attribute)"""
+    seen = {}
+    for r in case["recs"]:
+        for k, v in (r.get("attrs") or {}).items():
+            if isinstance(v, int) and not isinstance(v, bool):
+                seen.setdefault((k, v), set()).add(bool(r.get("nf")))
+    return any(len(x) > 1 for x in seen.values())
+
+
+def weight_attrs(case):
+    return {d.partition(":")[2] for d in case["stats"] if ":" in d}
+
+
+def nonpositive(case):
+    """some record has an explicit count < 1: outside the quantifier of the property (counts >= 1)"""
+    return any(rcount(r) < 1 for r in case["recs"])
+
+
+def classes_of(case):
+    classes = {}
+    for r in case["recs"]:
+        classes.setdefault(key_of(r, case["cats"], case["na"]), []).append(r)
+    return classes
+
+
+def unreadable_chunk(case):
+    """on disk, a record without nucleotides is written to its chunk file and refused by the FASTA/FASTQ reader
+    (log.Fatalf "sequence is empty", by design: such a record cannot come from a file either): the round trip
+    hypothesis of C06_disk_equals_memory does not hold for it"""
+    return case.get("disk") and any(r["seq"] == "" for r in case["recs"])
+
+
+def fatal_expected(case):
+    """StatsPlusOne refuses (log.Fatalf) a float / composite / null value: it sees every record of a kept class that does
+    not carry the slot already"""
+    if unreadable_chunk(case):
+        return True
+    for key, members in classes_of(case).items():
+        if case["nosingleton"] and len(members) == 1 and rcount(members[0]) == 1:
+            continue
+        for r in members:
+            for d in case["stats"]:
+                k = d.partition(":")[0]
+                a = r.get("attrs") or {}
+                if d not in (r.get("merged") or {}) and k in a and statkey(a[k]) is None:
+                    return True
+    return False
 
 
 def expected(case):
@@ -104,23 +235,23 @@ def expected(case):
         first = members[0].get("attrs") or {}
         ann = {}
         for k, v in first.items():
-            if k.startswith("merged_") or k == "count":
+            if k.startswith("merged_") or k == "count" or k in weight_attrs(case):
                 continue
-            if all(k in (r.get("attrs") or {}) and render((r.get("attrs") or {})[k]) == render(v) for r in members):
+            if all(k in (r.get("attrs") or {}) and rtid(case, r, (r.get("attrs") or {})[k]) == rtid(case, members[0], v) for r in members):
                 ann[k] = render(v)
         out.append(proj(key[0], key[1], total, merged, ann))
     return sorted(out)
 
 
 def mixed_type_cats(case):
-    """category attributes that carry the same printed value under two different Go types in two records"""
+    """category attributes that carry the same printed value under two different typed values in two records"""
     res = set()
     for c in case["cats"]:
         seen = {}
         for r in case["recs"]:
             a = r.get("attrs") or {}
             if c in a:
-                seen.setdefault(sprint(a[c]), set()).add(type(a[c]).__name__)
+                seen.setdefault(sprint(a[c]), set()).add(rtid(case, r, a[c]))
         if any(len(t) > 1 for t in seen.values()):
             res.add(c)
     return res
@@ -143,6 +274,8 @@ def observed(case, o):
     for r in o["recs"]:
         ann = {k: v for k, v in (r.get("ann") or {}).items() if k != "definition" or v != '""'}
         cv = tuple(unrender(ann[c]) if c in ann else na for c in cats)
+        # (an attribute used as a weight is rewritten by GetIntAttribute: its survival is not part of the claim)
+        ann = {k: v for k, v in ann.items() if k not in weight_attrs(case)}
         merged = {k: (r.get("merged") or {}).get(k) for k in set(stats)}
         merged = {k: (m if m is not None else {"<absent>": -1}) for k, m in merged.items()}
         res.append(proj(r["seq"], cv, r["count"], merged, ann))
@@ -153,21 +286,32 @@ def observed(case, o):
 KEYS = ["sample", "tag", "w", "x"]
 
 
-def gen_multiset(rng, big=False):
+def gen_multiset(rng, big=False, wide=False):
     nseq = rng.choice([1, 1, 2, 3, 4, 6, 12] if not big else [8, 20, 40])
     seqs = set()
     while len(seqs) < nseq:
         L = rng.choice(SEQ_POOL_LEN)
         seqs.add("".join(rng.choice("acgt") for _ in range(L)))
     seqs = sorted(seqs)
+    if wide and rng.random() < 0.3:
+        # the same nucleotides in another case are the same sequence
+        seqs += [x.upper() for x in seqs[:2]] + [seqs[0].capitalize()]
     nrec = rng.choice([0, 1, 2, 3, 5, 8, 13, 21] if not big else [40, 80, 150])
-    ktype = {k: rng.choice(["s", "s", "i", "b"]) for k in KEYS}
+    # value kinds: string, integer, boolean; wide: also float64, list, map, null, and one attribute mixing
+    # strings and numbers that print alike
+    ktype = {k: rng.choice(["s", "s", "i", "b"] + (["f", "c", "c", "m"] if wide else [])) for k in KEYS}
     pools = {}
     for k in KEYS:
         if ktype[k] == "s":
-            pools[k] = rng.sample(["A", "B", "C", "NA", "a b", "x1", "é"], rng.choice([1, 2, 3]))
+            pools[k] = rng.sample(["A", "B", "C", "NA", "a b", "x1", "é", ""], rng.choice([1, 2, 3]))
         elif ktype[k] == "i":
-            pools[k] = rng.sample([0, 1, 2, 7, 100], rng.choice([1, 2, 3]))
+            pools[k] = rng.sample([0, 1, 2, 7, 100, -3], rng.choice([1, 2, 3]))
+        elif ktype[k] == "f":
+            pools[k] = rng.sample([0.5, 2.5, 3.25, 7], rng.choice([1, 2, 3]))
+        elif ktype[k] == "c":
+            pools[k] = rng.sample([["a", "b"], ["a"], [], [1, "x"], {"p": 1}, {"p": 2, "q": "z"}, None, "[a]"], rng.choice([1, 2, 3]))
+        elif ktype[k] == "m":
+            pools[k] = rng.sample([1, "1", 2, "2", True, "true"], rng.choice([2, 3, 4]))
         else:
             pools[k] = [True, False]
     pres = {k: rng.choice([0.0, 0.5, 0.8, 1.0]) for k in KEYS}
@@ -175,22 +319,31 @@ def gen_multiset(rng, big=False):
     recs = []
     qualp = rng.choice([0.0, 0.0, 0.0, 0.5, 1.0])
     wtp = rng.choice([0.0, 0.6, 1.0])
+    wpool = rng.choice([[0, 1, 2, 9], [0, 1, 2, 9], [1, 2, 2.5, "3", -2, True]] if wide else [[0, 1, 2, 9]])
+    nonpos = wide and rng.random() < 0.12
+    wdesc = rng.random() < 0.5
+    # how numbers are stored: Go int (OBI-format headers, the default), float64 (JSON headers), or both in one data set
+    nfmode = rng.choice(["int", "int", "float", "float", "mixed"]) if wide else "int"
     for i in range(nrec):
         r = dict(id="r%d" % (i + 1), seq=rng.choice(seqs), attrs={}, merged={}, mk=rng.choice(["stats", "int", "iface"]))
+        if nfmode == "float" or (nfmode == "mixed" and rng.random() < 0.5):
+            r["nf"] = True
         if rng.random() < qualp:
             r["qual"] = "".join(rng.choice("5?I") for _ in r["seq"])
         if rng.random() < wtp:
-            r["attrs"]["wt"] = rng.choice([0, 1, 2, 9])
+            r["attrs"]["wt"] = rng.choice(wpool)
         c = rng.random()
         r["count"] = 0 if c < 0.35 else (1 if c < 0.55 else rng.choice([2, 3, 5, 10, 1000]))
+        if nonpos and rng.random() < 0.4:
+            r["ccount"] = rng.choice([0, 0, -1, -5, 1, 3])
         for k in KEYS:
             if rng.random() < pres[k]:
                 r["attrs"][k] = rng.choice(pools[k])
             if rng.random() < mergedp[k]:
                 # an already merged record: a map whose weights sum to the count (usually)
                 n = rng.choice([1, 1, 2, 3])
-                vs = rng.sample([sprint(v) for v in pools[k]] + ["NA", "Z"], min(n, len(pools[k]) + 2))
-                tot = rcount(r)
+                vs = rng.sample(sorted({sprint(v) for v in pools[k]} | {"NA", "Z"}), min(n, len({sprint(v) for v in pools[k]} | {"NA", "Z"})))
+                tot = max(rcount(r), 0)
                 m = {}
                 for j, v in enumerate(vs):
                     w = tot if j == len(vs) - 1 else rng.randrange(0, tot + 1)
@@ -199,8 +352,10 @@ def gen_multiset(rng, big=False):
                     tot = max(0, tot - w)
                     if w > 0:
                         m[v] = w
-                if m:
-                    r["merged"][k] = m
+                if wide and rng.random() < 0.1:
+                    m = {} if rng.random() < 0.5 else {vs[0]: rcount(r)}     # empty map / single value
+                if m or wide:
+                    r["merged"][k + ":wt" if wdesc and k == "sample" else k] = m
         recs.append(r)
     return recs
 
@@ -210,14 +365,20 @@ def gen_config(rng, disk=None):
     cats = rng.sample(KEYS + ["nokey"], ncat)
     nst = rng.choice([0, 1, 1, 2])
     stats = rng.sample(KEYS + ["nokey"], nst)
-    if stats and rng.random() < 0.12:
-        stats[0] = stats[0] + ":wt"      # weighted statistics (oracle only, not modelled)
-    return dict(cats=cats, stats=stats, na=rng.choice(["NA", "NA", "NA", "none", "A", ""]),
+    for i in range(len(stats)):
+        if rng.random() < 0.3:
+            stats[i] = stats[i] + rng.choice([":wt", ":wt", ":nokey", ":tag"])      # weighted statistics
+    if stats and rng.random() < 0.1:
+        stats.append(stats[0].partition(":")[0] + ("" if ":" in stats[0] else ":wt"))   # the same key with and without weight
+    # (an attribute used as a weight is rewritten by GetIntAttribute — 3.25 becomes 3 —: using the same attribute as a
+    #  category at the same time is not driven)
+    stats = [d if d.partition(":")[2] not in cats else d.partition(":")[0] + ":wt" for d in stats]
+    return dict(cats=cats, stats=stats, na=rng.choice(["NA", "NA", "NA", "none", "A", "", "1", "true"]),
                 nosingleton=rng.random() < 0.3)
 
 
 def gen_sched(rng, disk=None):
-    return dict(disk=(rng.random() < 0.35) if disk is None else disk, chunks=rng.choice([1, 2, 7, 100]),
+    return dict(disk=(rng.random() < 0.35) if disk is None else disk, chunks=rng.choice([1, 2, 7, 100, 1000]),
                 workers=rng.randrange(1, 9), batch=rng.choice([1, 2, 3, 5, 50]), dbatch=rng.choice([0, 0, 1, 2, 3]))
 
 
@@ -262,6 +423,31 @@ def corpus():
     ql = [dict(R("r1", "acgt", 0, dict(sample="A")), qual="IIII"), R("r2", "acgt", 0, dict(sample="A")), dict(R("r3", "ttt", 2), qual="I5I")]
     cs.append(C(ql, chunks=1, tag="qualities"))
     cs.append(C(ql, chunks=1, disk=True, tag="qualities-disk"))
+    # ---- round 2
+    wt2 = [R("r1", "acgt", 2, dict(sample="A", wt=5)), R("r2", "acgt", 3, dict(sample="B", wt=7)), R("r3", "acgt", 1, dict(sample="A")),
+           R("r4", "acgt", 1, dict(sample="A", wt=2.5)), R("r5", "acgt", 1, dict(sample="B", wt="7")), R("r6", "acgt", 4, dict(wt=-1)),
+           R("r7", "acgt", 6, dict(sample="C", wt=1), {"sample:wt": {"C": 4, "Z": 0}}), R("r8", "ttt", 1, dict(sample="A", wt=3))]
+    for disk in (False, True):
+        cs.append(C(wt2, stats=["sample:wt"], disk=disk, tag="weighted: float / string / negative / absent weight, already merged"))
+        cs.append(C(list(reversed(wt2)), stats=["sample:wt", "sample", "sample:nokey"], cats=["sample"], disk=disk, tag="weighted + cat"))
+    ty = [R("r1", "acgt", 0, dict(x=["a", "b"], y=0.5, z=None, t={"p": 1})), R("r2", "acgt", 0, dict(x=["a", "b"], y=0.5, z=None, t={"p": 1})),
+          R("r3", "acgt", 0, dict(x=["a"], y=2.5, t={"p": 2})), R("r4", "ACGT", 2, dict(x=["a", "b"], y=0.5, z=None, t={"p": 1})),
+          R("r5", "Acgt", 2, dict(x="[a b]", y="0.5"))]
+    for disk in (False, True):
+        cs.append(C(ty, disk=disk, tag="typed values, case-insensitive sequence"))
+        cs.append(C(ty[:4], cats=["x", "y", "z", "t"], stats=["nokey"], disk=disk, chunks=1000, tag="list / float / null / map categories, chunk-count > records"))
+    cs.append(C(ty, cats=["x"], tag="known:mixed-type-category-dropped (list vs string)"))
+    cs.append(C(ty[:4], stats=["y"], tag="fatal: statistics on a float"))
+    cs.append(C(ty[:4], stats=["x"], tag="fatal: statistics on a list"))
+    cs.append(C(ty[:2] + [R("r9", "g", 1, dict(y=0.5))], stats=["y"], nosingleton=True, cats=["z"], tag="fatal although no-singleton drops another float"))
+    cs.append(C([R("r9", "g", 1, dict(y=0.5))], stats=["y"], nosingleton=True, tag="no fatal: the only float is in a dropped singleton"))
+    np_ = [dict(R("r1", "acgt"), ccount=0), dict(R("r2", "acgt"), ccount=0), dict(R("r3", "acgt"), ccount=-4), R("r4", "acgt", 5), dict(R("r5", "tt"), ccount=0)]
+    cs.append(C(np_, stats=["sample"], tag="counts 0 / negative"))
+    cs.append(C(np_, stats=["sample"], disk=True, tag="counts 0 / negative, disk"))
+    es = [R("r1", "", 0, dict(sample="A")), R("r2", "", 2, dict(sample="B")), R("r3", "a", 0, dict(sample="A")), R("r4", "", 0, {})]
+    cs.append(C(es, stats=["sample"], chunks=7, tag="records without nucleotides"))
+    cs.append(C(es, cats=["sample"], nosingleton=True, chunks=7, tag="records without nucleotides, categories"))
+    cs.append(C(es, stats=["sample"], chunks=7, disk=True, tag="records without nucleotides on disk: refused by the chunk reader"))
     cs.append(C([], tag="empty"))
     cs.append(C([R("r1", "acgt")], tag="one"))
     cs.append(C([R("r1", "acgt")], nosingleton=True, tag="one-dropped"))
@@ -273,8 +459,10 @@ def gen_cases(ctx, nms, nperm, big=0):
     cases = corpus()
     groups = []    # indices of cases that must give the same projection
     for i in range(nms + big):
-        recs = gen_multiset(rng, big=(i >= nms))
+        recs = gen_multiset(rng, big=(i >= nms), wide=(i % 2 == 1))
         cfg = gen_config(rng)
+        if fatal_expected(dict(cfg, recs=recs)) and rng.random() < 0.8:
+            cfg["stats"] = []           # keep most of the wide multisets for the accounting
         g = []
         for p in range(nperm):
             rr = list(recs)
@@ -283,6 +471,10 @@ def gen_cases(ctx, nms, nperm, big=0):
             elif p > 1:
                 rng.shuffle(rr)
             c = dict(cfg, recs=rr, **gen_sched(rng, disk=(True if p == nperm - 1 and rng.random() < 0.5 else None)))
+            if fatal_expected(c):
+                c["disk"] = False       # (a stopped on-disk run leaves its temporary directory behind)
+            if mixed_numbers(c):
+                c["disk"] = False       # (through the chunk files every number becomes a float64: see the CLI witness mixed-headers)
             g.append(len(cases))
             cases.append(c)
         groups.append(g)
@@ -300,6 +492,41 @@ class Intern:
         return self.t[s]
 
 
+class TermPool:
+    """Typed values and records are defined once per generated Coq file (V<n>, R<n>) and referred to by name: the
+    arrival orders of one multiset share their records, and elaborating the literals dominates the evaluation time."""
+    def __init__(self):
+        self.I = Intern()
+        self.names = {}
+        self.defs = []
+
+    def name(self, prefix, term):
+        if term not in self.names:
+            self.names[term] = "%s%d" % (prefix, len(self.names) + 1)
+            self.defs.append("Definition %s := %s." % (self.names[term], term))
+        return self.names[term]
+
+    def preamble(self):
+        return IMPORTS + "\n".join(self.defs) + "\n"
+
+
+def correspond_sharded(ctx, label, items, build, shard):
+    """ctx.correspond on shards that each carry their own table of shared value / record definitions"""
+    from concurrent.futures import ThreadPoolExecutor
+
+    def job(k):
+        pool = TermPool()
+        terms = [build(c, o, pool) for c, o in items[k:k + shard]]
+        bad, err = ctx.correspond("%s_%d" % (label, k // shard), pool.preamble(), terms, shard=len(terms) + 1)
+        return k, bad, err
+    with ThreadPoolExecutor(14) as ex:
+        res = list(ex.map(job, range(0, len(items), shard)))
+    errs = [err for _, bad, err in res if bad is None]
+    if errs:
+        return None, errs[0]
+    return sorted(k + i for k, bad, _ in res for i in bad), None
+
+
 def nlist(l):
     return "[" + "; ".join(str(x) for x in l) + "]"
 
@@ -309,31 +536,90 @@ def seq_term(s):
 
 
 def stat_term(I, m):
-    return "[" + "; ".join("(%d, %d%%Z)" % (I(v), w) for v, w in sorted(m.items())) + "]"
+    return "[" + "; ".join("(%d, (%d)%%Z)" % (I(v), w) for v, w in sorted(m.items())) + "]"
 
 
-def rec_term(I, r, stats_keys):
-    # a value is modelled by its printed form (what the classifiers and StatsPlusOne see)
-    ann = "[" + "; ".join("(%d, %d)" % (I("k:" + k), I("s:" + sprint(v))) for k, v in sorted((r.get("attrs") or {}).items())) + "]"
-    mg = "[" + "; ".join("(%d, %s)" % (I("k:" + k), stat_term(lambda v: I("s:" + v), m)) for k, m in sorted((r.get("merged") or {}).items())) + "]"
-    return "mkrec %s %d%%Z %s %s" % (seq_term(r["seq"]), rcount(r), ann, mg)
+def val_term(I, t, pool=None):
+    """typed value as the Go code sees it (c06Typed): mkval tag print exact stat int"""
+    term = "(mkval %d %d %d %s %s)" % (t["tag"], I("s:" + t["print"]), I("s:" + t["exact"]),
+                                       "0" if t["stat"] is None else str(I("s:" + t["stat"])),
+                                       "None" if t["int"] is None else "(Some (%d)%%Z)" % t["int"])
+    return pool.name("V", term) if pool else term
 
 
-def out_term(I, p, cats, stats):
-    seq, cv, count, merged, ann = p
-    mg = "[" + "; ".join("(%d, %s)" % (I("k:" + k), "[" + "; ".join("(%d, %d%%Z)" % (I("s:" + v), w) for v, w in m) + "]") for k, m in merged) + "]"
-    an = "[" + "; ".join("(%d, %d)" % (I("k:" + k), I("s:" + unrender(v))) for k, v in ann) + "]"
-    return "mkout %s %s %d%%Z %s %s" % (seq_term(seq), nlist([I("s:" + v) for v in cv]), count, mg, an)
+def rec_term(I, t, pool=None):
+    """model record from the typed view of a record (input echo `tin`, or a re-read chunk record)"""
+    ann = "[" + "; ".join("(%d, %s)" % (I("k:" + k), val_term(I, v, pool)) for k, v in sorted((t.get("attrs") or {}).items())) + "]"
+    mg = "[" + "; ".join("(%d, %s)" % (I("k:" + k), stat_term(lambda v: I("s:" + v), m)) for k, m in sorted((t.get("merged") or {}).items())) + "]"
+    term = "mkrec %s (%d)%%Z %s %s" % (seq_term(t["seq"]), t["count"], ann, mg)
+    return pool.name("R", "(" + term + ")") if pool else term
 
 
-def case_term(case, obs_proj):
-    I = Intern()
+def out_term(I, case, r, cats, stats, ign=()):
+    """projection of an output record of the implementation: sequence, printed category values, count, requested
+    merged maps, every other annotation as (type tag, exact value)"""
+    full = r.get("tann") or {}
+    tann = {k: v for k, v in full.items() if not (k == "definition" and v["print"] == "") and k not in ign}
+    cv = [I("s:" + (full[c]["print"] if c in full else case["na"])) for c in cats]
+    mg = "[" + "; ".join("(%d, %s)" % (I("k:" + k), stat_term(lambda v: I("s:" + v), (r.get("merged") or {}).get(k) or {})) for k in stats) + "]"
+    an = "[" + "; ".join("(%d, (%d, %d))" % (I("k:" + k), v["tag"], I("s:" + v["exact"])) for k, v in sorted(tann.items())) + "]"
+    return "mkout %s %s (%d)%%Z %s %s" % (seq_term(r["seq"]), nlist(cv), r["count"], mg, an)
+
+
+def ds_term(I, stats):
+    items = []
+    for d in sorted(set(stats)):
+        k, _, w = d.partition(":")
+        items.append("(%d, (%d, %s))" % (I("k:" + d), I("k:" + k), "Some %d" % I("k:" + w) if ":" in d else "None"))
+    return "[" + "; ".join(items) + "]"
+
+
+def case_term(case, o, pool):
+    I = pool.I
     cats = nlist([I("k:" + c) for c in case["cats"]])
-    stats = nlist([I("k:" + c) for c in sorted(set(case["stats"]))])
+    sk = sorted(set(case["stats"]))
+    stats = nlist([I("k:" + c) for c in sk])
+    ds = ds_term(I, case["stats"])
     na = I("s:" + case["na"])
-    recs = "[" + ";\n   ".join(rec_term(I, r, case["stats"]) for r in case["recs"]) + "]"
-    outs = "[" + ";\n   ".join(out_term(I, p, case["cats"], case["stats"]) for p in obs_proj) + "]"
-    return "mkcase 0 %d %s %s %d %s\n  %s\n  %s" % (max(case["chunks"], 1), cats, stats, na, "true" if case["nosingleton"] else "false", recs, outs)
+    ign = sorted(weight_attrs(case))
+    # on disk the dereplication works on the records as re-read from the chunk files (the model's rt is the identity on
+    # them); that they are the records sent to the chunks is roundtrip_check's business
+    src = o.get("reread") if case["disk"] and o.get("kind") == "ok" else o.get("tin")
+    recs = "[" + "; ".join(rec_term(I, t, pool) for t in src or []) + "]"
+    crash = o.get("kind") == "fatal"
+    outs = "[" + ";\n   ".join(out_term(I, case, r, case["cats"], sk, ign) for r in (o.get("recs") or [])) + "]"
+    return "mkcase %d %d %s %s %s %d %s\n  %s\n  %s %s\n  %s" % (
+        2 if case["disk"] else 0, max(case["chunks"], 1), cats, ds, stats, na, "true" if case["nosingleton"] else "false", recs,
+        nlist([I("k:" + k) for k in ign]), "true" if crash else "false", outs)
+
+
+def roundtrip_check(case, o):
+    """The hypothesis of C06_disk_equals_memory on this case: every chunk file, as re-read by the implementation, holds
+    exactly the records sent to that chunk, on the projection the model works on (sequence, Count(), typed annotations,
+    merged maps). Chunk membership is recomputed here (CRC32 of the nucleotides modulo the chunk count)."""
+    import zlib, copy
+    n = max(case["chunks"], 1)
+    want, got = {}, {}
+    I = Intern()
+
+    def norm(t):
+        # a number written from a Go int is re-read as a float64 (today's JSON header reader) — or the other way round
+        # should the reader store integral numbers as int: the hypothesis is checked up to this representation, and
+        # literally when nothing had to be retagged
+        t = copy.deepcopy(t)
+        for v in t["attrs"].values():
+            if v["tag"] == 1:
+                v["tag"] = 2
+        return rec_term(I, t)
+    lit_w, lit_g = [], []
+    for t in o.get("tin") or []:
+        want.setdefault("chunk_%d" % (zlib.crc32(t["seq"].encode()) % n), []).append(norm(t))
+        lit_w.append(rec_term(I, t))
+    for t in o.get("reread") or []:
+        got.setdefault(t["chunk"], []).append(norm(t))
+        lit_g.append(rec_term(I, t))
+    bad = [c for c in sorted(set(want) | set(got)) if sorted(want.get(c, [])) != sorted(got.get(c, []))]
+    return len(want), bad, want, got, 0 if sorted(lit_w) == sorted(lit_g) else 1
 
 
 # ----------------------------------------------------------------------------------------------- obidemerge (worker level)
@@ -351,9 +637,9 @@ def expected_demerge(case):
         mg = {kk: (r.get("merged") or {}).get(kk, {}) for kk in keys}
         if k in (r.get("merged") or {}):
             for v, w in r["merged"][k].items():
-                out.append(proj(r["seq"], (), max(w, 1), dict(mg, **{k: {}}), dict(attrs, **{k: render(v)})))
+                out.append(proj(r["seq"].lower(), (), max(w, 1), dict(mg, **{k: {}}), dict(attrs, **{k: render(v)})))
         else:
-            out.append(proj(r["seq"], (), rcount(r), mg, attrs))
+            out.append(proj(r["seq"].lower(), (), rcount(r), mg, attrs))
     return sorted(out)
 
 
@@ -366,24 +652,23 @@ def observed_demerge(case, o):
     return sorted(res)
 
 
-def demerge_term(case, obs_proj):
-    I = Intern()
+def demerge_term(case, o, pool):
+    I = pool.I
     keys = demerge_keys(case)
     stats = nlist([I("k:" + c) for c in keys])
-    recs = "[" + ";\n   ".join(rec_term(I, r, keys) for r in case["recs"]) + "]"
-    order = {k: i for i, k in enumerate(keys)}
-    outs = "[" + ";\n   ".join(out_term(I, p, [], keys) for p in obs_proj) + "]"
-    return "mkcase 1 1 [] %s %d false\n  %s\n  %s" % (stats, I("s:NA"), recs, outs)
+    recs = "[" + "; ".join(rec_term(I, t, pool) for t in o.get("tin") or []) + "]"
+    outs = "[" + ";\n   ".join(out_term(I, dict(na="NA"), r, [], keys) for r in o["recs"]) + "]"
+    return "mkcase 1 1 [] [] %s %d false\n  %s\n  [] false\n  %s" % (stats, I("s:NA"), recs, outs)
 
 
 def demerge_check(ctx, broken, n):
     rng = ctx.rng
     cases = []
     for i in range(n):
-        recs = gen_multiset(rng)
+        recs = gen_multiset(rng, wide=(i % 2 == 1))
         for r in recs:
             r.pop("qual", None)
-        cases.append(dict(op="demerge", dkey=rng.choice(KEYS), recs=recs))
+        cases.append(dict(op="demerge", dkey=rng.choice(KEYS + ["sample:wt"]), recs=recs, echo=True))
     obs = ctx.vh_robust("c06", cases, timeout=300, one_timeout=20)
     terms, nviol = [], 0
     for i, (c, o) in enumerate(zip(cases, obs)):
@@ -395,8 +680,8 @@ def demerge_check(ctx, broken, n):
             nviol += 1
             if nviol <= 2:
                 ctx.violation("demerge_oracle_%d" % i, dict(property="C06", kind="demerge-direct-oracle", case=c, implementation=got, expected=exp))
-        terms.append((i, demerge_term(c, got)))
-    bad, err = ctx.correspond("demerge", IMPORTS, [t for _, t in terms], shard=120)
+        terms.append((i, (c, o)))
+    bad, err = correspond_sharded(ctx, "demerge", [t for _, t in terms], demerge_term, 60)
     if bad is None:
         broken.append(dict(kind="correspondence", detail=err))
     elif bad and not ctx.violations:
@@ -408,46 +693,115 @@ def demerge_check(ctx, broken, n):
 
 
 # ----------------------------------------------------------------------------------------------- evaluation
-def to_vh(c):
-    return {k: c[k] for k in ("recs", "disk", "chunks", "workers", "cats", "stats", "na", "nosingleton", "batch", "dbatch")}
+def to_vh(c, echo=True):
+    return dict({k: c[k] for k in ("recs", "disk", "chunks", "workers", "cats", "stats", "na", "nosingleton", "batch", "dbatch")}, echo=echo)
 
 
-def evaluate(ctx, cases, broken, label, corr=True):
+def weak_projection(ps):
+    """what is still claimed when some count is < 1 (SetCount turns every intermediate total < 1 into 1, so that the
+    count and the weights depend on the merge order): the classes"""
+    return sorted((p[0], p[1]) for p in ps)
+
+
+def evaluate(ctx, cases, broken, label, corr=True, slice_size=1200):
+    """evaluate_slice on slices of the cases (bounded memory: the typed echo of inputs and chunk files is dropped after use)"""
+    obs_all, projs_all, mism_all = [], [], []
+    for k in range(0, len(cases), slice_size):
+        obs, projs, mism = evaluate_slice(ctx, cases[k:k + slice_size], broken, label, corr, base=k)
+        for o in obs:
+            o.pop("tin", None)
+            o.pop("reread", None)
+            for r in o.get("recs") or []:
+                r.pop("tann", None)
+        obs_all += obs
+        projs_all += projs
+        mism_all += [k + i for i in mism]
+    return obs_all, projs_all, mism_all
+
+
+def evaluate_slice(ctx, cases, broken, label, corr=True, base=0):
+    import time
+    t0 = time.time()
+    sec = ctx.cov.setdefault("seconds", {})
     obs = ctx.vh_robust("c06", [to_vh(c) for c in cases], timeout=900, one_timeout=40)
+    sec[label + "_harness"] = round(sec.get(label + "_harness", 0) + time.time() - t0, 1)
     for i, o in enumerate(obs):
         if o.get("kind") in ("timeout", "crash"):
             # a loaded machine must not raise an alarm: the case is run again alone with a one minute deadline
             obs[i] = ctx.vh_robust("c06", [dict(to_vh(cases[i]), dl=60000)], timeout=90, one_timeout=90)[0]
     nviol = 0
     projs = []
+    st = ctx.cov.setdefault("on_disk_roundtrip_hypothesis", dict(cases_checked=0, chunk_files_checked=0, chunk_files_differing=0))
     for i, (c, o) in enumerate(zip(cases, obs)):
+        if fatal_expected(c):
+            # StatsPlusOne refuses the value: the program stops (log.Fatalf), in the model uniq_run = None
+            projs.append(None)
+            if o.get("kind") != "fatal":
+                nviol += 1
+                if nviol <= 3:
+                    ctx.violation("%s_nofatal_%d" % (label, base + i), dict(property="C06", kind="statistics-on-a-non-categorical-value-accepted", case=c, implementation=o))
+            continue
         if o.get("kind") != "ok":
             projs.append(None)
             nviol += 1
             if nviol <= 3:
-                ctx.violation("%s_%s_%d" % (label, o.get("kind"), i), dict(property="C06", kind="implementation-" + str(o.get("kind")), case=c, implementation=o))
+                ctx.violation("%s_%s_%d" % (label, o.get("kind"), base + i), dict(property="C06", kind="implementation-" + str(o.get("kind")), case=c, implementation=o))
             continue
+        if c["disk"] and o.get("tin") is not None:
+            nfiles, badc, want, got_, retagged = roundtrip_check(c, o)
+            st["cases_checked"] += 1
+            st["cases_literal"] = st.get("cases_literal", 0) + (retagged == 0)
+            st["cases_up_to_int_to_float64"] = st.get("cases_up_to_int_to_float64", 0) + (retagged > 0)
+            st["chunk_files_checked"] += nfiles
+            st["chunk_files_differing"] += len(badc)
+            if badc or o.get("nfiles", 0) != nfiles:
+                nviol += 1
+                if nviol <= 3:
+                    ctx.violation("%s_roundtrip_%d" % (label, base + i), dict(
+                        property="C06", kind="chunk-file-roundtrip", note="hypothesis of C06_disk_equals_memory (C02 round trip on the projected fields) fails on this case",
+                        case=c, chunks=badc, written={k: want.get(k) for k in badc}, reread={k: got_.get(k) for k in badc},
+                        files_read=o.get("nfiles"), files_expected=nfiles))
         got, exp = observed(c, o), expected(c)
         projs.append(got)
+        if nonpositive(c):
+            projs[-1] = None
+            # the classes, and C06_output_counts_positive: SetCount leaves no count below 1 in the output
+            if (not c["nosingleton"] and not mixed_type_cats(c) and weak_projection(got) != weak_projection(exp)) or any(p[2] < 1 for p in got):
+                nviol += 1
+                if nviol <= 3:
+                    ctx.violation("%s_classes_%d" % (label, base + i), dict(property="C06", kind="direct-oracle-classes", case=c, implementation=got, expected=exp))
+            continue
         mixed = mixed_type_cats(c)
         if got != exp and mixed:
             # known finding: the category attribute itself is dropped from the merged record (typed comparison in
             # BioSequence.Merge), everything else must still be as the property demands
             strip = lambda ps: sorted((p[0], p[2], p[3], tuple(kv for kv in p[4] if kv[0] not in mixed)) for p in ps)
             if strip(got) == strip(exp) and ctx.kf_match("mixed-type-category-dropped"):
-                ctx.known("mixed-type-category-dropped", "obiuniq -c k drops attribute k from a merged class whose members print the same value of k "
-                          "under different Go types (k=1 integer vs k=\"1\" string): the output no longer shows the key of that class")
+                ctx.known("mixed-type-category-dropped", KNOWN_MIXED)
                 projs[-1] = None
                 continue
         if got != exp:
             nviol += 1
             if nviol <= 3:
-                ctx.violation("%s_oracle_%d" % (label, i), dict(property="C06", kind="direct-oracle", case=c, implementation=got, expected=exp,
+                ctx.violation("%s_oracle_%d" % (label, base + i), dict(property="C06", kind="direct-oracle", case=c, implementation=got, expected=exp,
                                                               total_in=sum(rcount(r) for r in c["recs"]), total_out=sum(p[2] for p in got)))
     mism = []
     if corr:
-        idx = [i for i, p in enumerate(projs) if p is not None and not weighted(cases[i]) and not mixed_type_cats(cases[i])]
-        bad, err = ctx.correspond(label, IMPORTS, [case_term(cases[i], projs[i]) for i in idx], shard=120)
+        # the model covers weighted statistics, mixed types, refused values and counts < 1 (SetCount)
+        # (with a count < 1 the result depends on the merge order inside a class: the model merges in arrival order, which
+        #  the implementation does as long as a batch has at most 12 records — sort.Sort is an insertion sort up to there)
+        idx = [i for i, o in enumerate(obs) if o.get("kind") in ("ok", "fatal") and o.get("tin") is not None and not unreadable_chunk(cases[i])
+               and not (nonpositive(cases[i]) and len(cases[i]["recs"]) > 12)]
+        t0 = time.time()
+        bad, err = correspond_sharded(ctx, label, [(cases[i], obs[i]) for i in idx], case_term, 40)
+        sec[label + "_coq"] = round(sec.get(label + "_coq", 0) + time.time() - t0, 1)
+        mc = ctx.cov.setdefault("model_cases_" + label, {})
+        for key, val in dict(evaluated=len(idx), refused_values=sum(1 for i in idx if obs[i].get("kind") == "fatal"),
+                             mixed_types=sum(1 for i in idx if mixed_type_cats(cases[i])),
+                             weighted=sum(1 for i in idx if weighted(cases[i])), on_disk=sum(1 for i in idx if cases[i]["disk"]),
+                             counts_below_1=sum(1 for i in idx if nonpositive(cases[i])),
+                             int_and_float64_mixed=sum(1 for i in idx if mixed_numbers(cases[i]))).items():
+            mc[key] = mc.get(key, 0) + val
         if bad is None:
             broken.append(dict(kind="correspondence", detail=err))
         else:
@@ -466,7 +820,7 @@ def stress_cases(rng, n):
     return cs
 
 
-def disk_stress(ctx, nproc, ncase, cases=None, report=True):
+def disk_stress(ctx, nproc, ncase, cases=None, report=True, name="disk_stress"):
     """The on-disk mode writes every chunk to a file and reads the files back in the same process. Many harness processes run
     large on-disk cases at the same time, so that the operating system preempts the writer goroutines: a chunk file read
     before it is complete shows as lost records (or a crash on an empty file)."""
@@ -474,22 +828,24 @@ def disk_stress(ctx, nproc, ncase, cases=None, report=True):
     cases = cases or stress_cases(ctx.rng, ncase)
 
     def job(j):
-        obs = ctx.vh_robust("c06", [dict(to_vh(c), procs=c.get("procs", 0), dl=60000) for c in cases], timeout=900, one_timeout=90)
+        obs = ctx.vh_robust("c06", [dict(to_vh(c, echo=False), procs=c.get("procs", 0), wdelay=c.get("wdelay", 0), dl=60000) for c in cases], timeout=900, one_timeout=90)
         for i, o in enumerate(obs):
             if o.get("kind") == "timeout":      # slowness is not the defect looked for: run again alone
-                obs[i] = ctx.vh_robust("c06", [dict(to_vh(cases[i]), dl=120000)], timeout=150, one_timeout=150)[0]
-        return obs
+                obs[i] = ctx.vh_robust("c06", [dict(to_vh(cases[i], echo=False), wdelay=cases[i].get("wdelay", 0), dl=120000)], timeout=150, one_timeout=150)[0]
+        # only the failing observations are kept (memory)
+        return [(i, o) for i, o in enumerate(obs) if not (o.get("kind") == "ok" and observed(cases[i], o) == exp[i])]
+    exp = [expected(c) for c in cases]
     with ThreadPoolExecutor(nproc) as ex:
         res = list(ex.map(job, range(nproc)))
     nbad = 0
-    for j, obs in enumerate(res):
-        for i, (c, o) in enumerate(zip(cases, obs)):
-            ok = o.get("kind") == "ok" and observed(c, o) == expected(c)
-            if not ok:
+    for j, failing in enumerate(res):
+        for i, o in failing:
+            c = cases[i]
+            if True:
                 nbad += 1
                 if nbad <= 2 and report:
                     got = observed(c, o) if o.get("kind") == "ok" else o
-                    ctx.violation("disk_stress_%d_%d" % (j, i), dict(
+                    ctx.violation("%s_%d_%d" % (name, j, i), dict(
                         property="C06", kind="on-disk-mode-loses-records-under-contention", stress=dict(processes=nproc),
                         note="schedule dependent: replay runs the case in %d concurrent processes" % nproc,
                         case=c, implementation=got, expected=expected(c), total_in=sum(rcount(r) for r in c["recs"]),
@@ -512,7 +868,7 @@ def fasta_of(recs):
 
 def parse_fasta(txt):
     recs = []
-    for block in txt.split(">")[1:]:
+    for block in ("\n" + txt).split("\n>")[1:]:
         head, _, body = block.partition("\n")
         rid, _, rest = head.partition(" ")
         ann = {}
@@ -524,7 +880,7 @@ def parse_fasta(txt):
     return recs
 
 
-def cli_proj(recs, cats, stats, na):
+def cli_proj(recs, cats, stats, na, ign=()):
     res = []
     for r in recs:
         ann = dict(r["ann"])
@@ -532,6 +888,7 @@ def cli_proj(recs, cats, stats, na):
         merged = {k: ann.pop("merged_" + k, {"<absent>": -1}) for k in set(stats)}
         ann = {k: render(v) for k, v in ann.items() if not k.startswith("merged_") and k != "definition"}
         cv = tuple(unrender(ann[c]) if c in ann else na for c in cats)
+        ann = {k: v for k, v in ann.items() if k not in ign}
         res.append(proj(r["seq"], cv, count, merged, ann))
     return sorted(res)
 
@@ -573,7 +930,7 @@ def cli_one(ctx, bindir, case, name, report=True):
         if report:
             ctx.violation(name + "_exit", dict(property="C06", kind="cli-exit", case=rp, rc=[rc1, rc2, rc3], stderr=(e1 + e2 + e3)[-1500:]))
         return "exit %s" % [rc1, rc2, rc3]
-    p1 = cli_proj(parse_fasta(o1), case["cats"], case["stats"], case["na"])
+    p1 = cli_proj(parse_fasta(o1), case["cats"], case["stats"], case["na"], weight_attrs(case))
     exp = expected(case)
     if p1 != exp:
         if report:
@@ -594,13 +951,42 @@ def cli_one(ctx, bindir, case, name, report=True):
     return None
 
 
+KNOWN_MIXED = ("obiuniq -c k drops attribute k from a merged class whose members print the same value of k "
+               "under different Go types (k=1 integer vs k=\"1\" string): the output no longer shows the key of that class")
+
+
+def cli_mixed_headers(ctx, bindir):
+    """The known finding through the commands, and its consequence for 'independent of in-memory or on-disk mode': an
+    OBI-format header gives sample=1 as a Go int, a JSON header as a float64. In memory the merged record loses the
+    attribute; on disk every record goes through a chunk file (all float64) and keeps it."""
+    src = '>r1 sample=1; count=2;\nacgt\n>r2 {"sample":1}\nacgt\n>r3 {"sample":1,"count":3}\nacgt\n'
+    outs = {}
+    for mode in ("memory", "disk"):
+        try:
+            rc, o, e = run_cli(bindir, ["obiuniq", "-c", "sample"] + (["--in-memory"] if mode == "memory" else []), src)
+        except subprocess.TimeoutExpired:
+            rc, o, e = 124, "", "timeout"
+        outs[mode] = cli_proj(parse_fasta(o), ["sample"], [], "NA") if rc == 0 else [("exit", rc, e[-300:])]
+    exp = [proj("acgt", ("1",), 6, {}, {"sample": "1"})]
+    if outs["memory"] == exp and outs["disk"] == exp:
+        return "holds"
+    if outs["disk"] == exp and outs["memory"] == [proj("acgt", ("NA",), 6, {}, {})] and ctx.kf_match("mixed-type-category-dropped"):
+        ctx.known("mixed-type-category-dropped", KNOWN_MIXED)
+        return "known"
+    ctx.violation("cli_mixed_headers", dict(property="C06", kind="cli-memory-vs-disk", input=src, args="obiuniq -c sample [--in-memory]",
+                                            implementation=outs, expected=exp, case=dict(mixed_headers=True)))
+    return "violation"
+
+
 def cli_check(ctx, bindir, nms):
     rng = ctx.rng
     n = nbad = ndem = 0
     for i in range(nms):
-        recs = gen_multiset(rng)
+        recs = gen_multiset(rng, wide=(i % 4 == 3))
         for r in recs:
             r.pop("qual", None)
+            r.pop("ccount", None)
+            r["nf"] = True              # through the commands every number comes from the JSON header reader
         if i % 2 == 0:
             cfg = dict(cats=[], stats=[rng.choice(KEYS)], na="NA", nosingleton=False)
             ndem += 1
@@ -608,6 +994,8 @@ def cli_check(ctx, bindir, nms):
             cfg = gen_config(rng)
             cfg["na"] = cfg["na"] or "NA"
             cfg["stats"] = [d for d in cfg["stats"]]
+        if fatal_expected(dict(cfg, recs=recs)) or mixed_type_cats(dict(cfg, recs=recs)):
+            cfg["stats"], cfg["cats"] = [], [c for c in cfg["cats"] if c not in mixed_type_cats(dict(cfg, recs=recs))]
         case = dict(cfg, recs=recs, disk=rng.random() < 0.5, chunks=rng.choice([1, 2, 7, 100]), workers=rng.randrange(1, 5))
         bad = cli_one(ctx, bindir, case, "cli_%d" % i, report=(nbad < 2))
         nbad += bad is not None
@@ -622,9 +1010,13 @@ def nontrivial(c):
 
 
 def run(ctx, broken):
+    import time
+    t0 = time.time()
+    timing = ctx.cov.setdefault("seconds", {})
     nms, nperm, big = (110, 5, 3) if ctx.quick else (2500, 6, 60)
     cases, groups = gen_cases(ctx, nms, nperm, big)
     obs, projs, mism = evaluate(ctx, cases, broken, "main")
+    timing["main"] = round(time.time() - t0, 1)
     # order / chunk / mode / worker independence inside each group (implied by the oracle; reported separately for clarity)
     ngroups_equal = 0
     for g in groups:
@@ -638,12 +1030,24 @@ def run(ctx, broken):
     if bindir is None:
         broken.append(dict(kind="cmd-build", detail=err))
     else:
+        ctx.cov["cli_mixed_header_formats_memory_vs_disk"] = cli_mixed_headers(ctx, bindir)
         ncli, ndem = cli_check(ctx, bindir, 24 if ctx.quick else 400)
         ctx.cov["cli_cases"] = dict(obiuniq_vs_oracle=ncli, uniq_demerge_uniq=ndem)
+    timing["cli"] = round(time.time() - t0 - timing["main"], 1)
     ndw = demerge_check(ctx, broken, 60 if ctx.quick else 2000)
+    timing["demerge"] = round(time.time() - t0 - timing["main"] - timing["cli"], 1)
     nstress, nbad = disk_stress(ctx, 24 if ctx.quick else 48, 25 if ctx.quick else 120)
-    ctx.cov["disk_stress"] = dict(runs=nstress, failures=nbad, what="large on-disk cases run in many concurrent harness processes (writer goroutines preempted)")
-    ctx.cov["evaluations"] = len(cases) + ncli + ndw + nstress
+    # the same defect made deterministic: every chunk file is completed 5-20 ms late (verif hooks in both writers a chunk
+    # file can go through), one process at a time, so that a reader that does not wait sees incomplete files whatever the load
+    dcases = stress_cases(ctx.rng, 25 if ctx.quick else 150)
+    for c in dcases:
+        c["wdelay"] = ctx.rng.choice([5, 20])
+    ndet, nbad_det = disk_stress(ctx, 1 if ctx.quick else 4, 0, cases=dcases, name="disk_delay")
+    timing["disk_stress"] = round(time.time() - t0 - timing["main"] - timing["cli"] - timing["demerge"], 1)
+    ctx.cov["disk_stress"] = dict(runs=nstress, failures=nbad, what="large on-disk cases run in many concurrent harness processes (writer goroutines preempted)",
+                                  delayed_completion_runs=ndet, delayed_completion_failures=nbad_det,
+                                  delayed_completion="the same kind of cases, one process, every chunk file flushed/closed 5 or 20 ms late (verif hooks)")
+    ctx.cov["evaluations"] = len(cases) + ncli + ndw + nstress + ndet
     ctx.cov["distinct_nontrivial"] = len({json.dumps(to_vh(c), sort_keys=True) for c in cases if nontrivial(c)})
     ctx.cov["rule"] = ("multisets of 0..21 (big: 40..150) records over 1..12 (big: 8..40) distinct sequences, counts absent/1/2..1000, 4 attributes "
                        "(string/int/bool, present with p in {0,.5,.8,1}), already merged maps in 3 Go map types; each multiset in %d arrival orders "
@@ -664,6 +1068,8 @@ def run(ctx, broken):
                                    cli_uniq_demerge_uniq=ncli)
     ctx.samples = [dict(case=to_vh(cases[i]), implementation=projs[i]) for i in (0, 1, len(cases) // 2, len(cases) - 1)]
     ctx.cov["model_vs_impl_mismatches"] = len(mism)
+    if mism:
+        ctx.cov["model_vs_impl_mismatch_examples"] = [to_vh(cases[i], echo=False) for i in mism[:3]]
     if mism and not ctx.violations:
         more, _ = gen_cases(ctx, 400, 3)
         evaluate(ctx, more, [], "search", corr=False)
@@ -679,9 +1085,14 @@ def replay(ctx, rp):
         print("replay: nothing to replay in", list(rp))
         return
     c = rp["case"]
+    if c.get("mixed_headers"):
+        bindir, err = ctx.build_cmds(["obiuniq", "obidemerge"])
+        print("replay (obiuniq -c sample, in memory and on disk, on a file mixing OBI-format and JSON headers):", cli_mixed_headers(ctx, bindir))
+        return
     if "stress" in rp:
         n, nbad = disk_stress(ctx, rp["stress"]["processes"], 0, cases=[dict(C([]), **c)] * 20, report=False)
-        print("replay (on-disk mode, %d concurrent processes x 20 runs of the case): %d of %d runs lose records or crash" % (rp["stress"]["processes"], nbad, n))
+        print("replay (on-disk mode, %d concurrent processes x 20 runs of the case, chunk files completed %d ms late): %d of %d runs lose records or crash"
+              % (rp["stress"]["processes"], c.get("wdelay", 0), nbad, n))
         return
     if c.get("op") == "demerge":
         o = ctx.vh_robust("c06", [c])[0]
